@@ -175,6 +175,11 @@ def constructed(rng):
         add(op, l, r, n)
         if op == "divr" and n == 0 and rng.random() < 0.5:
             add("quant", l, r)
+    # --- quotient-digit estimate of 2^64 + 1 in the 256/128-bit division (vf/knuth.py)
+    for r_ in K.est_gt_b_requests(rng, 25, G.fD)[0]:
+        t_ = r_.split()
+        if t_[0] in ("mulr", "divr"):
+            add(t_[0], t_[2], t_[3], int(t_[4]))
     # --- operands at floor(T / 10^k) +- 2 for every primitive-type maximum T where k is the scaling the op applies
     for v, k in G.type_scaled_thresholds():
         for _try in range(3):
@@ -310,6 +315,15 @@ def constructed(rng):
                 x = rng.randrange(-10 ** 12, 10 ** 12)
                 add("mulr", G.fD(x, t), G.fD(P10[s], s), n)
                 add("mulr", G.fD(P10[s], s), G.fD(x, t), n)
+        for w in G.trunc_twins(rng, rng.choice((P10[s], -P10[s], 0)))[::3]:
+            # agrees with one / zero in its low 32 / 64 / 96 bits only
+            xs = rng.choice((3, -7, rng.randrange(-10 ** 6, 10 ** 6) or 1))
+            tt = rng.randrange(0, 19)
+            nn = rng.randrange(0, 19)
+            add("mulr", G.fD(xs, tt), G.fD(w, s), nn)
+            add("divr", G.fD(xs, tt), G.fD(w, s), nn)
+            add("divr", G.fD(w, s), G.fD(xs, tt), nn)
+            add("quant", G.fD(w, s), G.fD(xs, tt))
     # --- quantize
     quanta = [(5, 2), (25, 2), (1000, 3), (3, 0), (7, 18), (1, 18), (M, 0), (M // 3, 5), (10 ** 18, 18),
               (10 ** 17, 18), (2, 0), (-5, 1), (15, 0), (125, 1), (1, 0), (P10[18] * 7, 18)]
